@@ -28,6 +28,16 @@ const (
 
 // mkErr builds an error of the given class; the concrete representative is a
 // second symbolic choice (SMTP-annotated vs. explicit marker; plain vs. wrapped).
+// scriptMsgSym > 0 makes the text of SMTP-annotated failures symbolic (that many bytes).
+var scriptMsgSym int
+
+func mkMsg(name, def string) string {
+	if scriptMsgSym > 0 {
+		return nondetString(name+".msg", scriptMsgSym)
+	}
+	return def
+}
+
 func mkErr(name string, class int) error {
 	alt := nondetBool(name + ".variant")
 	switch class {
@@ -35,12 +45,12 @@ func mkErr(name string, class int) error {
 		if alt {
 			return exterrors.WithTemporary(errors.New(name+": temporary"), true)
 		}
-		return &exterrors.SMTPError{Code: 451, EnhancedCode: exterrors.EnhancedCode{4, 0, 0}, Message: name + ": try later"}
+		return &exterrors.SMTPError{Code: 451, EnhancedCode: exterrors.EnhancedCode{4, 2, 1}, Message: mkMsg(name, name+": try later")}
 	case fPerm:
 		if alt {
 			return exterrors.WithTemporary(errors.New(name+": permanent"), false)
 		}
-		return &exterrors.SMTPError{Code: 550, EnhancedCode: exterrors.EnhancedCode{5, 0, 0}, Message: name + ": rejected"}
+		return &exterrors.SMTPError{Code: 550, EnhancedCode: exterrors.EnhancedCode{5, 1, 1}, Message: mkMsg(name, name+": rejected")}
 	case fUnspec:
 		if alt {
 			return fmt.Errorf("%s: wrapped: %w", name, errors.New("io failure"))
@@ -51,6 +61,7 @@ func mkErr(name string, class int) error {
 }
 
 type scriptTarget struct {
+	lenientAbort bool // Abort after a failed Commit is tolerated (not every caller's contract forbids it)
 	name       string
 	partial    bool // offers module.PartialDelivery
 	faultFree  bool
@@ -75,6 +86,29 @@ type scriptDelivery struct {
 	header    textproto.Header
 	body      []byte
 	bodyErr   error
+	// the error values handed out (for oracles about stored statuses)
+	startErr error
+	rcptErr  map[string]error
+	statErr  map[string]error
+	bodyRet  error
+	commErr  error
+}
+
+// lastErr is the error the target reported last for recipient r in this delivery (nil if none).
+func (d *scriptDelivery) lastErr(r string) error {
+	if d.closed == "start-failed" {
+		return d.startErr
+	}
+	if e := d.rcptErr[r]; e != nil {
+		return e
+	}
+	if d.commErr != nil {
+		return d.commErr
+	}
+	if d.bodyRet != nil {
+		return d.bodyRet
+	}
+	return d.statErr[r]
 }
 
 type scriptPartial struct{ *scriptDelivery }
@@ -92,9 +126,11 @@ func (t *scriptTarget) Start(ctx context.Context, msgMeta *module.MsgMetadata, m
 		d := &scriptDelivery{t: t, attempt: t.attempt, closed: "start-failed", rcptFault: map[string]int{}, statFault: map[string]int{}}
 		d.bodyFault = c // recorded as the failure every recipient experienced
 		t.deliveries = append(t.deliveries, d)
-		return nil, mkErr(t.name+".start", c)
+		d.startErr = mkErr(t.name+".start", c)
+		return nil, d.startErr
 	}
-	d := &scriptDelivery{t: t, attempt: t.attempt, from: mailFrom, meta: msgMeta, rcptFault: map[string]int{}, statFault: map[string]int{}, committed: map[string]bool{}}
+	d := &scriptDelivery{t: t, attempt: t.attempt, from: mailFrom, meta: msgMeta, rcptFault: map[string]int{}, statFault: map[string]int{}, committed: map[string]bool{},
+		rcptErr: map[string]error{}, statErr: map[string]error{}}
 	t.deliveries = append(t.deliveries, d)
 	if t.partial {
 		return scriptPartial{d}, nil
@@ -116,7 +152,8 @@ func (d *scriptDelivery) AddRcpt(ctx context.Context, rcptTo string, opts smtp.R
 	d.offered = append(d.offered, rcptTo)
 	if c := d.t.fault("rcpt." + rcptTo); c != fOK {
 		d.rcptFault[rcptTo] = c
-		return mkErr(d.t.name+".rcpt", c)
+		d.rcptErr[rcptTo] = mkErr(d.t.name+".rcpt", c)
+		return d.rcptErr[rcptTo]
 	}
 	d.accepted = append(d.accepted, rcptTo)
 	return nil
@@ -146,7 +183,8 @@ func (d *scriptDelivery) Body(ctx context.Context, header textproto.Header, body
 	d.readBody(header, body)
 	if c := d.t.fault("body"); c != fOK {
 		d.bodyFault = c
-		return mkErr(d.t.name+".body", c)
+		d.bodyRet = mkErr(d.t.name+".body", c)
+		return d.bodyRet
 	}
 	return nil
 }
@@ -162,7 +200,8 @@ func (p scriptPartial) BodyNonAtomic(ctx context.Context, sc module.StatusCollec
 	for _, r := range d.accepted {
 		c := d.t.fault("status." + r)
 		d.statFault[r] = c
-		sc.SetStatus(r, mkErr(d.t.name+".status", c))
+		d.statErr[r] = mkErr(d.t.name+".status", c)
+		sc.SetStatus(r, d.statErr[r])
 	}
 }
 
@@ -174,7 +213,8 @@ func (d *scriptDelivery) Commit(ctx context.Context) error {
 	d.closed = "commit"
 	if c := d.t.fault("commit"); c != fOK {
 		d.commFault = c
-		return mkErr(d.t.name+".commit", c)
+		d.commErr = mkErr(d.t.name+".commit", c)
+		return d.commErr
 	}
 	for _, r := range d.accepted {
 		if d.bodyFault == fOK && d.statFault[r] == fOK {
@@ -185,6 +225,9 @@ func (d *scriptDelivery) Commit(ctx context.Context) error {
 }
 
 func (d *scriptDelivery) Abort(ctx context.Context) error {
+	if d.t.lenientAbort && d.closed == "commit" && d.commFault != fOK {
+		return nil
+	}
 	d.check("abort")
 	d.closed = "abort"
 	return nil
